@@ -1331,6 +1331,10 @@ static struct json_object *_json_object_new_string(const char *s, const size_t l
 	 */
 	if (len > (SSIZE_T_MAX - (sizeof(*jso) - sizeof(jso->c_string)) - 1))
 		return NULL;
+	if (len >= INT_MAX - 1)
+		// json_object_get_string_len returns length as int, cap length
+		// at INT_MAX, like _json_object_set_string_len does.
+		return NULL;
 	objsize = (sizeof(*jso) - sizeof(jso->c_string)) + len + 1;
 	if (len < sizeof(void *))
 		// We need a minimum size to support json_object_set_string() mutability
